@@ -1,6 +1,8 @@
 (* run_xpath.ml - dispatch of the xpath slice (XPathConv/XPathTree/XPathSem); compiled after model_xpath.ml and helpers.ml.
 
-   xp  <yang> <xml> <dump> <ctx> <expr-hex> <ast>
+   xp  <yang> <xml> <dump> <ctx> <expr-hex> <ast> [<off>]
+       <off> = names of as-coded switches (comma separated, `-` = none) that are put back to the recommendation because
+               the tree under test answers their canonical witness as the recommendation says (a fixed deviation)
        answer:  <spec result>|<as-coded result>|<flags needed>
        spec result     = eval_top spec_flags   (the XPath 1.0 reference semantics)
        as-coded result = eval_top impl_flags   (every modelled departure of src/xpath.c switched on)
@@ -149,6 +151,7 @@ let switches : (string * (flags -> flags)) list = [
   ("assert-attribute-node", (fun f -> { f with f_attrnode = false }));
   ("crash-sort-restart", (fun f -> { f with f_crash = false }));
   ("assert-unsorted-child-step", (fun f -> { f with f_assert = false }));
+  ("fastpath-position-rhs", (fun f -> { f with f_fastpos = false }));
   ("fastpath-nonstring-rhs", (fun f -> { f with f_fast = false }));
   ("cmp-canonize", (fun f -> { f with f_canon = false }));
   ("cmp-nodeset-boolean", (fun f -> { f with f_cmpbool = false }));
@@ -170,8 +173,13 @@ let switches : (string * (flags -> flags)) list = [
 
 let differs (a : flags) (b : flags) : bool = a <> b
 
-let needed (t : xnode list) (c : item) (e : expr) (target : string) : string =
-  let cur = ref impl_flags in
+(* as-coded flags with the switches named in [off] (deviations that the tree under test no longer shows) put back
+   to the recommendation *)
+let coded_flags (off : string list) : flags =
+  List.fold_left (fun f (name, sw) -> if List.mem name off then sw f else f) impl_flags switches
+
+let needed (base : flags) (t : xnode list) (c : item) (e : expr) (target : string) : string =
+  let cur = ref base in
   let keep = ref [] in
   List.iter (fun (name, off) ->
       let f' = off !cur in
@@ -182,7 +190,9 @@ let needed (t : xnode list) (c : item) (e : expr) (target : string) : string =
 
 let run (f : string list) : string =
   match f with
-  | "xp" :: _ :: _ :: dump :: ctx :: _ :: ast :: _ ->
+  | "xp" :: _ :: _ :: dump :: ctx :: _ :: ast :: rest ->
+      let off = match rest with o :: _ when o <> "-" && o <> "" -> String.split_on_char ',' o | _ -> [] in
+      let cflags = coded_flags off in
       (match parse_ast ast with
        | None -> "E7|E7|"
        | Some e ->
@@ -194,8 +204,8 @@ let run (f : string list) : string =
             | None -> "BADCTX|BADCTX|"
             | Some c ->
                 let s = show_res spec_flags (eval_top spec_flags t c e) in
-                let i = show_res impl_flags (eval_top impl_flags t c e) in
-                if s = i then s ^ "|" ^ i ^ "|" else s ^ "|" ^ i ^ "|" ^ needed t c e i))
+                let i = show_res cflags (eval_top cflags t c e) in
+                if s = i then s ^ "|" ^ i ^ "|" else s ^ "|" ^ i ^ "|" ^ needed cflags t c e i))
   | ["xpk"; "s2n"; h] -> "F:" ^ show_num (impl_s2n impl_flags.f_prec (unhex h))
   | ["xpk"; "n2s"; h] ->
       let x = impl_s2n impl_flags.f_prec (unhex h) in
